@@ -1,28 +1,27 @@
 import JaqalModel.Model.Ir
-import JaqalModel.Model.Resolve
 /-!
 # Python `==` on the circuit IR, exactly as the `__eq__` methods of `jaqalpaq.core` evaluate it
 
-Transcribed from `/repo/src/jaqalpaq/core/`: `circuit.py` (`Circuit.__eq__`), `block.py`
-(`BlockStatement.__eq__`, `LoopStatement.__eq__`), `gate.py` (`GateStatement.__eq__`: `zip_longest`
-over the argument VALUES, keys ignored; the NaN rule is vacuous, every float of the model is finite),
-`register.py` (`Register.__eq__`, `NamedQubit.__eq__`), `constant.py`, `parameter.py`
-(`AnnotatedValue.__eq__`, inherited by `Parameter`), `macro.py`, `gatedef.py` (`AbstractGate.__eq__`),
-`usepulses.py`; Python's `dict`/`list`/`slice` (tuple) equality.
+Transcribed from `/repo/src/jaqalpaq/core/` (after the repairs `042b591`, `dd507cc`): `circuit.py`
+(`Circuit.__eq__`), `block.py` (`BlockStatement.__eq__`, `LoopStatement.__eq__`), `gate.py`
+(`GateStatement.__eq__`: `zip_longest` over the argument VALUES, keys ignored; the NaN rule is vacuous, every
+float of the model is finite), `register.py` (`Register.__eq__`, `NamedQubit.__eq__`), `constant.py`,
+`parameter.py` (`AnnotatedValue.__eq__`, inherited by `Parameter`), `macro.py`, `gatedef.py`
+(`AbstractGate.__eq__`), `usepulses.py`; Python's `dict`/`list`/`slice` (tuple) equality.
 
 How Python evaluates `a == b` here:
 
-* every `__eq__` above returns a `bool` (never `NotImplemented`) and wraps its body in
+* every `__eq__` above returns a `bool` (never `NotImplemented`) and wraps its attribute reads in
   `try … except AttributeError: return False` (except `Macro.__eq__`, which is only ever applied to two macros);
 * none of the classes is a subclass of another one that it is compared with, so `a.__eq__(b)` is tried
   first; only for `a` an `int`/`float`/`None`/`str` and `b` an object does `a.__eq__(b)` return
-  `NotImplemented`, and then the reflected `b.__eq__(a)` runs: it reads `a.name` first, `AttributeError`,
-  `False`;
-* `and` short-circuits; `list`/`tuple`/`dict` comparisons stop at the first unequal element;
-* a comparison can RAISE: `Register.__eq__` of a fundamental register reads `other.size`, a property that
-  runs `resolve_size({})` on the other register — `JaqalError` for an alias of a parameter, `TypeError` /
-  `ValueError` from `range`, and an endless loop for an alias whose source is a `Constant`. Only
-  `AttributeError` is caught. So the result type is `M Bool`.
+  `NotImplemented`, and then the reflected `b.__eq__(a)` runs: it reads `a.name` first, `AttributeError`, `False`
+  (`AnnotatedValue.__eq__`: `isinstance(a, AnnotatedValue)` is false, then `a.name`);
+* NOTHING CAN RAISE any more: the only attribute reads are plain stored attributes (`name`, `kind`, `value`,
+  `fundamental`, `_size`, `alias_from`, `alias_slice`, `alias_index`, `parallel`, …) — `Register.__eq__` used to
+  read the computed property `other.size` (JaqalError / ValueError / endless loop); it now tests
+  `self.fundamental != other.fundamental` and compares the stored `_size`. So the result type is `Bool`;
+  `and`-short-circuiting and the order of comparisons are therefore unobservable and `&&` is used.
 
 Not modelled (cannot be, by value): the identity shortcut of `list`/`tuple`/`dict` element comparison
 (`x is y or x == y`). It agrees with `==` whenever `==` is reflexive on the element, which `C20_refl` shows
@@ -30,151 +29,75 @@ for every constructible value.
 -/
 namespace Jaqal.PyEq
 
-/-- `a and b` with exceptions: `b` is not evaluated when `a` is false -/
-@[inline] def andM (a : M Bool) (b : M Bool) : M Bool := do
-  if ← a then b else pure false
-
-/-- `.kind` of a `Constant`: fixed by the constructor from the value (`INT` / `FLOAT` / the kind of the
-constant it renames). A constant with any other value cannot be constructed. -/
-def constKind : Val → Kind
-  | .int _ => .int
-  | .flt _ => .float
-  | .const _ v => constKind v
-  | _ => .none
-
-/-- does the Python object have a `.name` attribute (everything except numbers, `None`, `str`) -/
-def hasName (v : Val) : Bool := v.name?.isSome
-
-/-- `other.size` inside `Register.__eq__`: `AttributeError` is caught there (the comparison is `False`),
-every other exception escapes. `none` = AttributeError. -/
-def sizeAttr (b : Val) : M (Option Val) :=
-  match Resolve.resolveSize [] b with
-  | .ok s => pure (some s)
-  | .error (.other cls) => if cls == "AttributeError" then pure none else .error (.other cls)
-  | .error e => .error e
-
 /-- Python `a == b` for any two values that can be an argument / index / size / bound / count. -/
-def valEq : Val → Val → M Bool
+def valEq : Val → Val → Bool
   -- int.__eq__ / float.__eq__; NotImplemented for anything else, reflected `b.__eq__(a)`: `a.name` → False
-  | .int x, b => pure (match b with
-      | .int y => Num.veq (.int x) (.int y)
-      | .flt y => Num.veq (.int x) (.flt y)
-      | _ => false)
-  | .flt x, b => pure (match b with
-      | .int y => Num.veq (.flt x) (.int y)
-      | .flt y => Num.veq (.flt x) (.flt y)
-      | _ => false)
-  | .none, b => pure (match b with | .none => true | _ => false)
-  | .str s, b => pure (match b with | .str t => s == t | _ => false)
-  -- Constant.__eq__: self.name == other.name and self.value == other.value
-  | .const n v, b =>
-    match b with
-    | .const n' v' => if n == n' then valEq v v' else pure false
-    | _ => pure false            -- no `.name`, or a different name, or no `.value`
-  -- AnnotatedValue.__eq__: self.name == other.name and self.kind == other.kind
-  | .param n k, b => pure (match b with
-      | .param n' k' => n == n' && k == k'
-      | .const n' v' => n == n' && k == constKind v'     -- a Constant HAS a kind
-      | _ => false)
+  | .int x, .int y => Num.veq (.int x) (.int y)
+  | .int x, .flt y => Num.veq (.int x) (.flt y)
+  | .flt x, .int y => Num.veq (.flt x) (.int y)
+  | .flt x, .flt y => Num.veq (.flt x) (.flt y)
+  | .none, .none => true
+  | .str s, .str t => s == t
+  -- Constant.__eq__: self.name == other.name and self.value == other.value (only a Constant has `.value`)
+  | .const n v, .const n' v' => n == n' && valEq v v'
+  -- AnnotatedValue.__eq__: an annotated value of another class → False; then name and kind
+  | .param n k, .param n' k' => n == n' && k == k'
   -- NamedQubit.__eq__: name, alias_from.name, alias_index; anything but a NamedQubit lacks one of them
-  | .qubit n src idx, b =>
-    match b with
-    | .qubit n' src' idx' =>
-      if n == n' then
-        match src.name?, src'.name? with
-        | some s, some s' => if s == s' then valEq idx idx' else pure false
-        | _, _ => pure false
-      else pure false
-    | _ => pure false
-  -- Register.__eq__, fundamental: self.size == other.size
-  | .regF n size, b =>
-    match b.name? with
-    | Option.none => pure false
-    | some n' =>
-      if n == n' then do
-        match ← sizeAttr b with
-        | Option.none => pure false
-        | some s => valEq size s
-      else pure false
-  -- Register.__eq__, alias: self.alias_from == other.alias_from and self.alias_slice == other.alias_slice
-  | .regA n src, b =>
-    match b with
-    | .qubit n' src' _ => if n == n' then do let _ ← valEq src src'; pure false else pure false   -- no alias_slice
-    | .regF n' _ => if n == n' then valEq src .none else pure false     -- None == None for the slices
-    | .regA n' src' => if n == n' then valEq src src' else pure false
-    | .regS n' src' _ _ _ => if n == n' then do let _ ← valEq src src'; pure false else pure false   -- None == slice
-    | _ => pure false
-  | .regS n src st sp se, b =>
-    match b with
-    | .qubit n' src' _ => if n == n' then do let _ ← valEq src src'; pure false else pure false
-    | .regF n' _ => if n == n' then do let _ ← valEq src .none; pure false else pure false   -- slice == None
-    | .regA n' src' => if n == n' then do let _ ← valEq src src'; pure false else pure false
-    | .regS n' src' st' sp' se' =>
-      if n == n' then
-        andM (valEq src src') (andM (valEq st st') (andM (valEq sp sp') (valEq se se')))
-      else pure false
-    | _ => pure false
+  | .qubit n src idx, .qubit n' src' idx' =>
+    n == n' && (match src.name?, src'.name? with
+                | some s, some s' => s == s'
+                | _, _ => false) && valEq idx idx'
+  -- Register.__eq__: name; `fundamental` must agree; fundamental: the stored sizes
+  | .regF n size, .regF n' size' => n == n' && valEq size size'
+  -- alias: alias_from and alias_slice (`None == None`, `None == slice(..)` is False, slices compare as tuples)
+  | .regA n src, .regA n' src' => n == n' && valEq src src'
+  | .regS n src st sp se, .regS n' src' st' sp' se' =>
+    n == n' && valEq src src' && valEq st st' && valEq sp sp' && valEq se se'
+  | _, _ => false
 
 /-- `all(are_equal(s, o) for s, o in zip_longest(self.parameters.values(), other.parameters.values()))` -/
-def argsEq : List (String × Val) → List (String × Val) → M Bool
-  | [], [] => pure true
-  | a :: as, [] => andM (valEq a.2 .none) (argsEq as [])
-  | [], b :: bs => andM (valEq .none b.2) (argsEq [] bs)
-  | a :: as, b :: bs => andM (valEq a.2 b.2) (argsEq as bs)
+def argsEq : List (String × Val) → List (String × Val) → Bool
+  | [], [] => true
+  | a :: as, [] => valEq a.2 .none && argsEq as []
+  | [], b :: bs => valEq .none b.2 && argsEq [] bs
+  | a :: as, b :: bs => valEq a.2 b.2 && argsEq as bs
 
 /-- `list.__eq__` of two parameter lists (`Parameter == Parameter`: name and kind) -/
 def paramsEq (a b : List (String × Kind)) : Bool := a == b
 
 mutual
   /-- `a == b` for statements -/
-  def stmtEq : Stmt → Stmt → M Bool
+  def stmtEq : Stmt → Stmt → Bool
     -- GateStatement.__eq__: other.name, other.parameters
-    | .gate n _ args, b =>
-      match b with
-      | .gate n' _ args' => if n == n' then argsEq args args' else pure false
-      | _ => pure false
-    -- BlockStatement.__eq__: parallel, subcircuit, iterations, statements
-    | .block par sub it body, b =>
-      match b with
-      | .block par' sub' it' body' =>
-        if par == par' && sub == sub' then
-          andM (valEq it it') (if body.length == body'.length then stmtsEq body body' else pure false)
-        else pure false
-      | _ => pure false
-    -- LoopStatement.__eq__: iterations, statements (a BlockStatement has both attributes)
-    | .loop cnt body, b =>
-      match b with
-      | .loop cnt' body' => andM (valEq cnt cnt') (stmtEq body body')
-      | .block _ _ it' _ => do let _ ← valEq cnt it'; pure false     -- statement == list → False
-      | .gate .. => pure false
-  /-- `list.__eq__` on two statement lists of the same length (the lengths are compared first, in
-  `stmtEq`): element by element, stopping at the first unequal pair -/
-  def stmtsEq : List Stmt → List Stmt → M Bool
-    | [], _ => pure true
-    | _ :: _, [] => pure true
-    | a :: as, b :: bs => andM (stmtEq a b) (stmtsEq as bs)
+    | .gate n _ args, .gate n' _ args' => n == n' && argsEq args args'
+    -- BlockStatement.__eq__: parallel, subcircuit, iterations, statements (list: lengths first)
+    | .block par sub it body, .block par' sub' it' body' =>
+      par == par' && sub == sub' && valEq it it' && body.length == body'.length && stmtsEq body body'
+    -- LoopStatement.__eq__: iterations, statements. (Against a BlockStatement, which has both attributes, the
+    -- second comparison is statement == list → False.)
+    | .loop cnt body, .loop cnt' body' => valEq cnt cnt' && stmtEq body body'
+    | _, _ => false
+  /-- `list.__eq__` on two statement lists of the same length (the lengths are compared first, in `stmtEq`) -/
+  def stmtsEq : List Stmt → List Stmt → Bool
+    | a :: as, b :: bs => stmtEq a b && stmtsEq as bs
+    | _, _ => true
 end
 
 /-- `Macro.__eq__` -/
-def macroEq (a b : Macro) : M Bool :=
-  if a.name == b.name && paramsEq a.params b.params then stmtEq a.body b.body else pure false
+def macroEq (a b : Macro) : Bool :=
+  a.name == b.name && paramsEq a.params b.params && stmtEq a.body b.body
 
 /-- `AbstractGate.__eq__`: name and parameters; the unitary and the class are not compared -/
 def gateDefEq (a b : GateDef) : Bool := a.name == b.name && paramsEq a.params b.params
 
-/-- `dict.__eq__`: same number of entries and, in `a`'s insertion order, every key of `a` is in `b`
-with an equal value. -/
-def dictEq {α} (key : α → Option String) (eq : α → α → M Bool) (a b : List α) : M Bool :=
-  if a.length != b.length then pure false else
-  let rec go : List α → M Bool
-    | [] => pure true
-    | x :: xs =>
-      match b.find? (fun y => key y == key x) with
-      | Option.none => pure false
-      | some y => andM (eq x y) (go xs)
-  go a
+/-- `dict.__eq__`: same number of entries and every key of `a` is in `b` with an equal value. -/
+def dictEq {α} (key : α → Option String) (eq : α → α → Bool) (a b : List α) : Bool :=
+  a.length == b.length &&
+  a.all (fun x => match b.find? (fun y => key y == key x) with
+                  | Option.none => false
+                  | some y => eq x y)
 
-/-- `list.__eq__` with an element equality that cannot raise -/
+/-- `list.__eq__` -/
 def listEqB {α} (eq : α → α → Bool) : List α → List α → Bool
   | [], [] => true
   | a :: as, b :: bs => eq a b && listEqB eq as bs
@@ -183,13 +106,13 @@ def listEqB {α} (eq : α → α → Bool) : List α → List α → Bool
 /-- `UsePulsesStatement.__eq__`: `_module` and `_names` -/
 def usepulsesEq (a b : String × String) : Bool := a.1 == b.1 && a.2 == b.2
 
-/-- `Circuit.__eq__`: constants, macros, native_gates, registers, body, usepulses — in this order. -/
-def circuitEq (a b : Circuit) : M Bool :=
-  andM (dictEq Val.name? valEq a.constants b.constants) <|
-  andM (dictEq (fun m => some m.name) macroEq a.macros b.macros) <|
-  andM (dictEq (fun g => some g.name) (fun x y => pure (gateDefEq x y)) a.natives b.natives) <|
-  andM (dictEq Val.name? valEq a.registers b.registers) <|
-  andM (stmtEq a.body b.body) <|
-  pure (listEqB usepulsesEq a.usepulses b.usepulses)
+/-- `Circuit.__eq__`: constants, macros, native_gates, registers, body, usepulses. -/
+def circuitEq (a b : Circuit) : Bool :=
+  dictEq Val.name? valEq a.constants b.constants &&
+  dictEq (fun m => some m.name) macroEq a.macros b.macros &&
+  dictEq (fun g => some g.name) gateDefEq a.natives b.natives &&
+  dictEq Val.name? valEq a.registers b.registers &&
+  stmtEq a.body b.body &&
+  listEqB usepulsesEq a.usepulses b.usepulses
 
 end Jaqal.PyEq
